@@ -2,7 +2,8 @@
     every search response and the shape of the state with what the real
     queryLog did. *)
 From Coq Require Export Uint63.
-From AGH Require Export Base.Run Model.QLogFile Model.QLog Model.QLogCodec Model.QLogServe Model.QLogRotate.
+From AGH Require Export Base.Run Model.QLogFile Model.QLog Model.QLogCodec Model.QLogServe Model.QLogRotate Model.QLogClients.
+From AGH Require Model.ClientIndex.
 Local Open Scope Z_scope.
 
 (** Byte strings are printed packed, seven bytes to a primitive integer
@@ -47,7 +48,31 @@ Inductive hstep :=
   | HSearchC (q : request) (code : Z) (rows : list (N * N)) (oldest : Z)
   (* queryLog.checkAndRotate run as a whole with rotation interval [ivl] (ns),
      [now] = a clock reading taken right after it *)
-  | HCheckRot (ivl now : Z).
+  | HCheckRot (ivl now : Z)
+  (* the registry of package home changed (persistent clients, leases,
+     runtime clients): the FindClient table is recomputed from it *)
+  | HReg (ops : list gop)
+  (* the rotation interval as configured now (PUT .../config/update, POST
+     /control/querylog_config, the configuration a restart reads) *)
+  | HIvl (ivl : Z)
+  (* queryLog.checkAndRotate run as a whole with the CONFIGURED interval *)
+  | HCheckRotCfg (now : Z).
+
+(** Registry records as the harness prints them (the fields the query log
+    never looks at are fixed). *)
+Definition mkc (u : N) (name : bytes) (cids : list bytes) (ips : list (bytes * bytes))
+    (subnets : list (bytes * N)) (macs : list bytes) (ign : bool) : ClientIndex.client :=
+  {| ClientIndex.c_uid := u; ClientIndex.c_name := name; ClientIndex.c_cids := cids; ClientIndex.c_ips := ips;
+     ClientIndex.c_subnets := subnets; ClientIndex.c_macs := macs; ClientIndex.c_own_settings := false;
+     ClientIndex.c_filtering := false; ClientIndex.c_safesearch := false; ClientIndex.c_safebrowsing := false;
+     ClientIndex.c_parental := false; ClientIndex.c_own_blocked := false; ClientIndex.c_blocked := None;
+     ClientIndex.c_ignore_qlog := ign; ClientIndex.c_ignore_stats := false; ClientIndex.c_tags := [];
+     ClientIndex.c_upstreams := [] |}.
+Definition GAdd (c : ClientIndex.client) : gop := GClient (ClientIndex.OAdd c).
+Definition GUpd (name : bytes) (c : ClientIndex.client) : gop := GClient (ClientIndex.OUpdate name c).
+Definition GRem (name : bytes) : gop := GClient (ClientIndex.ORemove name).
+Definition ci_cfg : ClientIndex.config :=
+  {| ClientIndex.cfg_tags := []; ClientIndex.cfg_addr_ok := fun _ => true |}.
 
 (** One file line through the real codec.  [src]: the entry json.Marshal was
     given (None for hand-written lines); [good_*]: the strings of the line Go's
@@ -61,6 +86,12 @@ Inductive case :=
   (* [texts]: the address texts of the case; [masks]: (address, masked
      address) as indices into [texts] (the anonymiser oracle) *)
   | CHist (me bf : Z) (c0 : config) (texts : list bytes) (masks : list (N * N)) (steps : list hstep)
+  (* a history on a log whose FindClient is home's findMultiple over a real
+     client.Storage: [pt] = netip.ParseAddr on the identifier texts [ids] of
+     the case; the [clients] table of [c0] and of every operation is ignored
+     and computed from the registry (Model/QLogClients.v) *)
+  | CHistR (me bf : Z) (c0 : config) (texts : list bytes) (masks : list (N * N))
+           (pt : parse_tbl) (ids : list bytes) (steps : list hstep)
   | CCodec (src : option centry) (line : bytes)
            (good_time good_ip good_addr good_b64 : list bytes)
            (panicked : bool) (dec : centry) (qh ip cid : bytes)
@@ -106,24 +137,52 @@ Definition resp_ok (texts : list bytes) (r : response) (code : Z) (rows : list (
   | RPanic => code =? 2
   end.
 
+(** What the replay carries besides the served state: the registry (used
+    when [rv_use]), the parse table and identifier texts, the configured
+    rotation interval. *)
+Record renv := { rv_use : bool; rv_rg : registry; rv_pt : parse_tbl; rv_ids : list bytes; rv_ivl : Z }.
+
+Definition day_ns : Z := 86400000000000.
+
+Definition env0 : renv := {| rv_use := false; rv_rg := empty_registry; rv_pt := []; rv_ids := []; rv_ivl := day_ns |}.
+Definition envR (pt : parse_tbl) (ids : list bytes) : renv :=
+  {| rv_use := true; rv_rg := empty_registry; rv_pt := pt; rv_ids := ids; rv_ivl := day_ns |}.
+
+(** With a registry the FindClient table of the state is the computed one. *)
+Definition sync (v : renv) (s : sstate) : sstate :=
+  if rv_use v then
+    {| st := set_config (st s) (enabled (cfg (st s))) (ignored (cfg (st s)))
+                        (clients_table (rv_rg v) (rv_pt v) (rv_ids v));
+       anon := anon s |}
+  else s.
+
+Definition env_reg (v : renv) (ops : list gop) : renv :=
+  {| rv_use := rv_use v; rv_rg := grun ci_cfg ops (rv_rg v); rv_pt := rv_pt v; rv_ids := rv_ids v; rv_ivl := rv_ivl v |}.
+Definition env_ivl (v : renv) (i : Z) : renv :=
+  {| rv_use := rv_use v; rv_rg := rv_rg v; rv_pt := rv_pt v; rv_ids := rv_ids v; rv_ivl := i |}.
+
 (** The state is threaded through [qstep] / [serve] of Model/QLogServe.v: the
     state after a served request is the one [serve] returns. *)
-Fixpoint replay (me bf : Z) (texts : list bytes) (t : mask_tbl) (s : sstate) (steps : list hstep) : bool :=
+Fixpoint replay (me bf : Z) (texts : list bytes) (t : mask_tbl) (v : renv) (s : sstate) (steps : list hstep) : bool :=
   match steps with
   | [] => true
-  | HOp o :: r => replay me bf texts t (qstep me bf t s (SOp o)) r
-  | HAnon b :: r => replay me bf texts t (qstep me bf t s (SAnon b)) r
+  | HOp o :: r => replay me bf texts t v (sync v (qstep me bf t s (SOp o))) r
+  | HAnon b :: r => replay me bf texts t v (qstep me bf t s (SAnon b)) r
   | HState nb nc nr :: r =>
-      (lenZ (buf (st s)) =? nb) && (opt_len (cur (st s)) =? nc) && (opt_len (rot (st s)) =? nr) && replay me bf texts t s r
+      (lenZ (buf (st s)) =? nb) && (opt_len (cur (st s)) =? nc) && (opt_len (rot (st s)) =? nr) && replay me bf texts t v s r
   | HSearch q code ids oldest :: r =>
-      search_ok me bf (st s) q code ids oldest && replay me bf texts t (qstep me bf t s (SServe q)) r
+      search_ok me bf (st s) q code ids oldest && replay me bf texts t v (qstep me bf t s (SServe q)) r
   | HSearchC q code rows oldest :: r =>
       let (s', resp) := serve me bf t s q in
-      resp_ok texts resp code rows oldest && replay me bf texts t s' r
-  | HSearchP p code ids oldest :: r => searchp_ok me bf (st s) p code ids oldest && replay me bf texts t s r
+      resp_ok texts resp code rows oldest && replay me bf texts t v s' r
+  | HSearchP p code ids oldest :: r => searchp_ok me bf (st s) p code ids oldest && replay me bf texts t v s r
   | HCheckRot ivl now :: r =>
-      (* the code as it is: a missing file counts as infinitely old *)
-      replay me bf texts t {| st := check_and_rotate false ivl now (st s); anon := anon s |} r
+      (* the code as it is since 011b417: a missing file is not rotated *)
+      replay me bf texts t v {| st := check_and_rotate false ivl now (st s); anon := anon s |} r
+  | HReg ops :: r => let v' := env_reg v ops in replay me bf texts t v' (sync v' s) r
+  | HIvl i :: r => replay me bf texts t (env_ivl v i) s r
+  | HCheckRotCfg now :: r =>
+      replay me bf texts t v {| st := check_and_rotate false (rv_ivl v) now (st s); anon := anon s |} r
   end.
 
 (** *** codec cases *)
@@ -190,7 +249,10 @@ Definition case_ok (c : case) : bool :=
   match c with
   | CHist me bf c0 texts masks steps =>
       (me =? max_entry_size) && (bf =? buffer_size) &&
-      replay me bf texts (tbl_of texts masks) (sinit c0) steps
+      replay me bf texts (tbl_of texts masks) env0 (sinit c0) steps
+  | CHistR me bf c0 texts masks pt ids steps =>
+      (me =? max_entry_size) && (bf =? buffer_size) &&
+      replay me bf texts (tbl_of texts masks) (envR pt ids) (sync (envR pt ids) (sinit c0)) steps
   | CCodec src line bt bi ba bb panicked dec qh ip cid cl qs =>
       codec_ok src line bt bi ba bb panicked dec qh ip cid cl qs
   end.
@@ -199,22 +261,22 @@ Definition mismatches := Base.Run.mismatches case_ok.
 
 (** For replay files: per search, what the model answers (code, ids, oldest)
     and whether it agrees. *)
-Fixpoint explain_steps (me bf : Z) (texts : list bytes) (t : mask_tbl) (s : sstate) (steps : list hstep) : list (Z * list N * Z * bool) :=
+Fixpoint explain_steps (me bf : Z) (texts : list bytes) (t : mask_tbl) (v : renv) (s : sstate) (steps : list hstep) : list (Z * list N * Z * bool) :=
   match steps with
   | [] => []
-  | HOp o :: r => explain_steps me bf texts t (qstep me bf t s (SOp o)) r
-  | HAnon b :: r => explain_steps me bf texts t (qstep me bf t s (SAnon b)) r
+  | HOp o :: r => explain_steps me bf texts t v (sync v (qstep me bf t s (SOp o))) r
+  | HAnon b :: r => explain_steps me bf texts t v (qstep me bf t s (SAnon b)) r
   | HState nb nc nr :: r =>
       if (lenZ (buf (st s)) =? nb) && (opt_len (cur (st s)) =? nc) && (opt_len (rot (st s)) =? nr)
-      then explain_steps me bf texts t s r
+      then explain_steps me bf texts t v s r
       else (-1, [], lenZ (buf (st s)) * 1000000 + (opt_len (cur (st s)) + 1) * 1000 + (opt_len (rot (st s)) + 1), false)
-           :: explain_steps me bf texts t s r
+           :: explain_steps me bf texts t v s r
   | HSearch q code ids oldest :: r =>
       (match handle me bf (st s) q with
        | Ok es o => (0, map e_id es, o)
        | BadRequest => (1, [], 0)
        | Panic => (2, [], 0)
-       end, search_ok me bf (st s) q code ids oldest) :: explain_steps me bf texts t s r
+       end, search_ok me bf (st s) q code ids oldest) :: explain_steps me bf texts t v s r
   | HSearchC q code rows oldest :: r =>
       (* code 10 + x: a request compared with its client column; a row whose
          client differs shows as agreement on ids but flag false *)
@@ -222,22 +284,28 @@ Fixpoint explain_steps (me bf : Z) (texts : list bytes) (t : mask_tbl) (s : ssta
        | Ok es o => (10, map e_id es, o)
        | BadRequest => (11, [], 0)
        | Panic => (12, [], 0)
-       end, resp_ok texts (snd (serve me bf t s q)) code rows oldest) :: explain_steps me bf texts t s r
+       end, resp_ok texts (snd (serve me bf t s q)) code rows oldest) :: explain_steps me bf texts t v s r
   | HSearchP p code ids oldest :: r =>
       (match search me bf (st s) p with
        | Ok es o => (0, map e_id es, o)
        | BadRequest => (1, [], 0)
        | Panic => (2, [], 0)
-       end, searchp_ok me bf (st s) p code ids oldest) :: explain_steps me bf texts t s r
+       end, searchp_ok me bf (st s) p code ids oldest) :: explain_steps me bf texts t v s r
   | HCheckRot ivl now :: r =>
-      explain_steps me bf texts t {| st := check_and_rotate false ivl now (st s); anon := anon s |} r
+      explain_steps me bf texts t v {| st := check_and_rotate false ivl now (st s); anon := anon s |} r
+  | HReg ops :: r => let v' := env_reg v ops in explain_steps me bf texts t v' (sync v' s) r
+  | HIvl i :: r => explain_steps me bf texts t (env_ivl v i) s r
+  | HCheckRotCfg now :: r =>
+      explain_steps me bf texts t v {| st := check_and_rotate false (rv_ivl v) now (st s); anon := anon s |} r
   end.
 
 (** For codec cases: (0, ids unused, 0, flag) rows: encode agrees, decode
     agrees (panic flag, entry), the three raw values agree, quick verdicts. *)
 Definition explain (c : case) :=
   match c with
-  | CHist me bf c0 texts masks steps => explain_steps me bf texts (tbl_of texts masks) (sinit c0) steps
+  | CHist me bf c0 texts masks steps => explain_steps me bf texts (tbl_of texts masks) env0 (sinit c0) steps
+  | CHistR me bf c0 texts masks pt ids steps =>
+      explain_steps me bf texts (tbl_of texts masks) (envR pt ids) (sync (envR pt ids) (sinit c0)) steps
   | CCodec src line bt bi ba bb panicked dec qh ip cid cl qs =>
       let (p, d) := decode (mk_oracles bt bi ba bb) line in
       [(100, [], 0, match src with Some e => eqb_bytes (encode e) line | None => true end);
